@@ -20,7 +20,10 @@ BOUNDS = {"quick": "depth <= 2, width <= 2; ints |x| < 2^70; text of 1-2 code po
                    "at every UTF-8 length boundary and at both edges of the surrogate gap); bytes of 0-2 symbolic bytes; floats/complex from a boundary set",
           "thorough": "same shapes + width 3 and all leaf-kind pairs in containers"}
 OUTSIDE = ["values deeper/wider than the bound", "arbitrary 64-bit float patterns (repr/float() are C code)",
-           "hosts other than 3.12 (replay only uses the host)", "lone surrogate code points"]
+           "hosts other than 3.12 (replay only uses the host)", "lone surrogate code points",
+           "the file interface xdis.marsh.dump(x, f) / load(f): the statement is about dumps/loads; on a 3.x host load(f) looks its type byte up "
+           "as text and dump writes text chunks, so neither works with a binary file at all (noted, not a claim)",
+           "sizes between 3 and 32766 and above 70001 for whole values (the size field itself is decided for every 32-bit value by C14.field.w_long)"]
 ASSUMPTIONS = ["CrossHair/z3 soundness; CrossHair's models of chr/ord/str concatenation",
                "refmodels/marshal_ref.py reader (validated) and the reference writer below (validated vs host marshal.dumps)"]
 FUNCS = ["xdis.marsh.dumps", "xdis.marsh.loads", "xdis.marsh._Marshaller.dump*", "xdis.marsh._Marshaller.w_long/w_short/w_long64",
@@ -339,6 +342,121 @@ def loads_ob(name, sh, version, tier):
               oracle="reference writer (validated vs host marshal.dumps); replay with host marshal.dumps")
 
 
+
+# ---- the fixed-width field encoders/decoders every size, count and small int goes through -------------------------------
+
+FIELDS = {"w_short": (16, False), "w_long": (32, True)}   # w_long64/_r_long64 (TYPE_INT64) are not reachable from dumps/loads of a 3.x host value
+
+
+def field_writer_ob(fn, bits, signed):
+    lo, hi = (-(1 << (bits - 1)), (1 << (bits - 1)) - 1)
+    if not signed:
+        lo, hi = -(1 << (bits - 1)), (1 << bits) - 1    # w_short is used for 15-bit digits and 16-bit fields alike
+
+    def run(n):
+        import xdis.marsh as MS
+        out = []
+        m = MS._Marshaller(out.append, (3, 12))
+        getattr(m, fn)(n)
+        return [ord(ch) for piece in out for ch in piece]
+
+    def body(n):
+        got = run(n)
+        want = [(n >> (8 * i)) & 0xFF for i in range(bits // 8)]
+        assert got == want, "field: %s(%d) wrote %r" % (fn, n, got)
+
+    def replay(n):
+        got = run(n)
+        want = list((n & ((1 << bits) - 1)).to_bytes(bits // 8, "little"))
+        return None if got == want else "xdis.marsh._Marshaller.%s(%d) writes %r, little-endian two's complement is %r" % (fn, n, bytes(got), bytes(want))
+
+    return Ob(id="C14.field.%s" % fn, prop="C14", params=[("n", (lo, hi))], body=body, replay=replay, funcs=FUNCS, region="field.%s" % fn,
+              skeleton="_Marshaller.%s(n): the field every size/count/digit is written with" % fn, bound="n over the whole %d-bit range" % bits,
+              timeout=120, struct_model=False, oracle="little-endian two's complement (int.to_bytes at replay)")
+
+
+def field_reader_ob(fn, bits, fast):
+    nb = bits // 8
+
+    def run(data):
+        import xdis.marsh as MS
+        if fast:
+            u = MS._FastUnmarshaller(data, (3, 12))
+            return getattr(MS, "_" + fn)(u)
+        buf = MS._StringBuffer(data)
+        return getattr(MS._Unmarshaller(buf.read, (3, 12)), fn)()
+
+    def body(**kw):
+        bs = [kw["b%d" % i] for i in range(nb)]
+        got = run(mkbytes(bs))
+        x = sum(b << (8 * i) for i, b in enumerate(bs))
+        want = x - (1 << bits) if bs[-1] >= 0x80 else x
+        assert got == want, "field: %s(%r) read %r" % (fn, bs, got)
+
+    def replay(**kw):
+        data = bytes(kw["b%d" % i] for i in range(nb))
+        got = run(data)
+        want = int.from_bytes(data, "little", signed=True)
+        return None if got == want else "xdis.marsh %s%s of %r gives %r, the field holds %r" % ("_" if fast else "_Unmarshaller.", fn, data, got, want)
+
+    return Ob(id="C14.field.%s%s" % ("fast." if fast else "", fn), prop="C14", params=[("b%d" % i, (0, 255)) for i in range(nb)], body=body, replay=replay,
+              funcs=FUNCS, region="field.%s" % fn, skeleton="%s over %d symbolic bytes (%s reader)" % (fn, nb, "string-buffer" if fast else "file"),
+              bound="all %d-byte fields" % nb, timeout=120, struct_model=False, oracle="little-endian two's complement (int.from_bytes at replay)")
+
+
+# ---- sizes and counts beyond 15/16 bits (concrete values, both directions, decided by the host's marshal) ----------------
+
+LARGE_SIZES = [32767, 32768, 65535, 65536, 70001]
+
+
+def large_values(n):
+    yield "bytes", b"y" * n
+    yield "text-ascii", "a" * n
+    yield "text-2byte", "\xe9" * (n // 2) + "a" * (n % 2)        # UTF-8 size n, n//2 + n%2 code points
+    yield "tuple", tuple(range(n))
+    yield "list", [None] * n
+    yield "frozenset", frozenset(range(n))
+    yield "long", (1 << (15 * n - 1)) + 12345                          # n 15-bit digits
+    yield "neglong", -((1 << (15 * n - 1)) + 7)
+    yield "nested", (1, [b"z" * n], {"k": "b" * n})
+
+
+def large_ob(n):
+    def bad():
+        import xdis.marsh as MS
+        out = []
+        for kind, v in large_values(n):
+            try:
+                enc = MS.dumps(v)
+                back = marshal.loads(enc)
+                if not (type(back) is type(v) and back == v):
+                    out.append("marshal.loads(xdis.marsh.dumps(<%s of size %d>)) gives a different value (encoding starts %r)" % (kind, n, enc[:8]))
+            except Exception as e:
+                out.append("marshal.loads(xdis.marsh.dumps(<%s of size %d>)) raises %s: %s" % (kind, n, type(e).__name__, str(e)[:80]))
+            for version in (0, 2):
+                try:
+                    got = MS.loads(marshal.dumps(v, version))
+                    if not (type(got) is type(v) and got == v):
+                        out.append("xdis.marsh.loads(marshal.dumps(<%s of size %d>, %d)) gives a different value" % (kind, n, version))
+                except Exception as e:
+                    out.append("xdis.marsh.loads(marshal.dumps(<%s of size %d>, %d)) raises %s: %s" % (kind, n, version, type(e).__name__, str(e)[:80]))
+        return out
+
+    def q():
+        b = bad()
+        if b:
+            return "refuted", b[0][:300], {"size": n}, 0, 0.0
+        return "confirmed", "9 kinds of value, both directions", None, 0, 0.0
+
+    def replay(size):
+        b = bad()
+        return b[0] if b else None
+
+    return Ob(id="C14.large.%d" % n, prop="C14", params=[], body=None, direct=q, replay=replay, funcs=FUNCS, region="large",
+              skeleton="values whose size/count/digit-count field is %d: bytes, text, tuple, list, frozenset, ints, nested" % n,
+              bound="concrete values (sizes 32767..70001)", timeout=300, oracle="R-real: the host's marshal.loads / marshal.dumps")
+
+
 _VAL = [0]
 
 
@@ -375,4 +493,10 @@ def generate(tier, seed):
             if tier == "quick" and version == 1 and not name.startswith(("int", "text", "float", "tuple2", "dict1")):
                 continue
             obs.append(loads_ob(name, sh, version, tier))
+    for fn, (bits, signed) in FIELDS.items():
+        obs.append(field_writer_ob(fn, bits, signed))
+    for fn, bits in (("r_short", 16), ("r_long", 32)):
+        obs.append(field_reader_ob(fn, bits, True))     # the string-buffer reader loads() uses; load(f)/dump(x, f) are outside the statement
+    for n in LARGE_SIZES:
+        obs.append(large_ob(n))
     return obs
